@@ -100,6 +100,60 @@ def rsa_numbers_top(bits=1024, top=0x80, e=65537, idx=0):
     return v
 
 
+def dsa_single_fault_domain(which):
+    """(p, q, g) of FIPS size (1024, 160) violating exactly one domain condition while all the others hold:
+    'p-composite-only': p = p1*m composite, q prime, q | p-1, 1 < g < p, g^q = 1 mod p (g has order q modulo p1 and is 1 modulo m);
+    'q-composite-only': q = q1*q2 composite, p prime, q | p-1, g of order q1 (so g^q = 1 mod p)."""
+    def build():
+        import sympy
+        if which == "p-composite-only":
+            q = dsa_numbers()[3]
+            k = ((1 << 511) // q) + 12345
+            while True:
+                p1 = k * q + 1
+                if p1.bit_length() == 512 and sympy.isprime(p1):
+                    break
+                k += 1
+            j = ((1 << 511) // (2 * q)) + 777
+            while True:
+                m = j * 2 * q + 1
+                p = p1 * m
+                if p.bit_length() >= 1024:
+                    break
+                j += 1 << 340
+            if p.bit_length() != 1024 or (p - 1) % q:
+                raise HarnessError("composite DSA modulus construction failed")
+            h = 2
+            while True:
+                g1 = pow(h, (p1 - 1) // q, p1)
+                if g1 != 1:
+                    break
+                h += 1
+            g = (1 + m * (((g1 - 1) * pow(m, -1, p1)) % p1)) % p
+            if not (1 < g < p and pow(g, q, p) == 1) or sympy.isprime(p):
+                raise HarnessError("composite DSA modulus construction failed (g)")
+            return [p, q, g]
+        q1 = _prime_from(b"dsa-q1", 80, top2=True)
+        q2 = _prime_from(b"dsa-q2", 80, top2=True)
+        q = q1 * q2
+        k = ((1 << 1023) // q) + 99
+        while True:
+            p = k * q + 1
+            if p.bit_length() == 1024 and sympy.isprime(p):
+                break
+            k += 1
+        h = 2
+        while True:
+            g = pow(h, (p - 1) // q1, p)
+            if g > 1:
+                break
+            h += 1
+        if q.bit_length() != 160 or pow(g, q, p) != 1:
+            raise HarnessError("composite DSA subgroup order construction failed")
+        return [p, q, g]
+    return tuple(_cached("dsa-fault-%s" % which, build))
+
+
 def dsa_numbers(L=1024, N=160, idx=0):
     """(y, g, p, q, x) for a FIPS (L, N) pair."""
     key = ("dsa", L, N, idx)
